@@ -179,6 +179,19 @@ impl Prop for C31 {
         vec![Phase::random("colours", cases(), tier.pick(30_000, 1_500_000))]
     }
     fn check(&self, c: &Case) -> Verdict {
+        if c.c.hsl_out_of_range {
+            // inside the open finding's region the first mismatch is usually a channel value; whiteness and blackness
+            // are judged first there, so that they are not hidden behind it
+            let t = &c.c.text;
+            if let Ok(r) = rs::probes(&[format!("color.whiteness({t})"), format!("color.blackness({t})")]) {
+                for (i, name) in ["whiteness", "blackness"].iter().enumerate() {
+                    match num(&r[i]) {
+                        Some((v, u)) if u == "%" && (0.0..=100.0).contains(&v) => {}
+                        other => return Verdict::fail(format!("{name}({t}) = {other:?} is outside 0%..100%")),
+                    }
+                }
+            }
+        }
         let v = self.check_inner(c);
         if let crate::engine::Outcome::Fail { msg, region: None } = &v.outcome {
             // (whiteness and blackness are computed from the clamped rgb channels and stay in range even there)
